@@ -904,6 +904,18 @@ theorem C14_midscan_recognised (k : Fmt) (preload : Bool) (file : List α) (chos
       cases k <;> exact preloadMid_recognised _ _ _ _ _ _ _ _ _ _ h
     exact ⟨this.2, fun _ => this.1⟩
 
+/-- **Wherever the cancel lands, only listed entries are delivered.**  Every ammo the streaming provider has delivered
+when it ends is an entry of the file that the filter chooses (the preloaded one has delivered nothing:
+`C14_midscan_recognised`) — for every Scan call in which the cancel lands and every outcome of the races. -/
+theorem C14_midscan_only_chosen (k : Fmt) (file : List α) (chosen : α → Bool) (b : Bounds) (ret : CtxRet) (norm : Bool)
+    (plan : MidPlan) (fuel : Nat) (o : List α) (e : MidEnd)
+    (h : runMid k false file chosen b ret norm plan fuel = some (o, e)) :
+    ∀ a ∈ o, a ∈ file ∧ chosen a = true := by
+  have key : ∃ more, o = [] ++ more ∧ ∀ a ∈ more, a ∈ file ∧ chosen a = true := by
+    cases k <;> exact fullScanMid_only_chosen _ _ _ _ _ _ _ _ _ _ _ _ _ _ _ h
+  obtain ⟨more, rfl, hm⟩ := key
+  simpa using hm
+
 /-- **The cancel lands in the first read of the file** (what the harness drives, `rc=1`): something is chosen; the
 streaming provider delivers nothing or — the first entry being chosen and the send winning the race — that entry,
 the preloaded provider nothing; BOTH end with the context's own error. -/
@@ -965,8 +977,19 @@ theorem C14_midscan_is_source :
       Gen.C14Hdr.jsonScanChecksCtx = scanChecksCtx .jsonArray) ∧
      (∀ k, Bridge.C14.ctxRetOf k = .bare)) ∧
     ((∀ eb, Gen.ChosenCases.loadAmmoFailBare true .canceled eb = some true) ∧
-     (∀ c e eb, Gen.ChosenCases.loadAmmoFailBare c e eb = none ↔ Gen.ChosenCases.loadAmmoFail c e = none)) :=
-  ⟨Bridge.C14.scan_ctx_source, Bridge.C14.loadFail_bare_source⟩
+     (∀ c e eb, Gen.ChosenCases.loadAmmoFailBare c e eb = none ↔ Gen.ChosenCases.loadAmmoFail c e = none)) ∧
+    (ownCtxEnd = ⟨Gen.ChosenCases.runFullScanDone, Gen.ChosenCases.runFullScanCtxBare⟩ ∧
+     ownCtxEnd = ⟨Gen.ChosenCases.runPreloadedDone, Gen.ChosenCases.runPreloadedCtxBare⟩) :=
+  ⟨Bridge.C14.scan_ctx_source, Bridge.C14.loadFail_bare_source, Bridge.C14.own_ctx_source⟩
+
+/-- **Where the two modes can part.**  In the current source the config field `Preload` is read by exactly two
+functions: `Provider.Run` (which path — everything `C14_equiv` … `C14_midscan_first` are about) and `Provider.Release`
+(a preloaded ammo is not handed back to the decoder's pool).  NewProvider, the decoders' constructors and Scan
+functions, Acquire, loadAmmo, runFullScan and runPreloaded never ask: a new reader re-opens this obligation. -/
+theorem C14_preload_read_only_by_run_and_release :
+    Gen.ChosenCases.preloadReadSites = ["provider.Provider.Release", "provider.Provider.Run"] ∧
+    (∀ preload, Gen.ChosenCases.releaseToPool preload = !preload) :=
+  ⟨Bridge.C14.preload_sites_source, fun p => by rw [Bridge.C14.release_source]; rfl⟩
 
 -- non-vacuity: a run of three entries, two chosen, cancel inside the SECOND Scan call, noticed there
 example : runMid .uripost false [1, 2, 3] (fun x => x != 2) ⟨0, 2⟩ (Bridge.C14.ctxRetOf .uripost) true ⟨1, true, false⟩ 9
